@@ -1,0 +1,31 @@
+//go:build verif
+
+// Contracts for the memberlist KV (C04, C06, C07), checked by /verif/govc (comment-only file).
+
+package memberlist
+
+//@ # the atomic compare-and-merge step (the whole body runs under storeMu)
+//@ func KV.mergeValueForKey
+//@   property C07 C06
+//@   requires !isnil(m.store) && get(m.store, key).Version < 18446744073709551615
+//@   # a compare-and-swap whose function read a different version (including "no value", version 0) is refused, store untouched
+//@   ensures  mismatch: cas && !deleted && get(old(m).store, key).Version != casVersion ==> err == errVersionMismatch && newVersion == 0 && same(m.store, old(m).store)
+//@   # a stored update bumps the version by exactly one, and a CAS can only store on top of the version it read
+//@   ensures  stored: newVersion > 0 ==> err == nil && in(key, m.store) && m.store[key].Version == newVersion && newVersion == get(old(m).store, key).Version + 1 && (cas ==> get(old(m).store, key).Version == casVersion)
+//@   ensures  notstored: newVersion == 0 ==> same(m.store, old(m).store)
+//@   ensures  others: forall k string :: k != key ==> (in(k, m.store) <==> in(k, old(m).store)) && (in(k, m.store) ==> same(m.store[k], old(m).store[k]))
+//@   ensures  failed: err != nil ==> newVersion == 0
+//@
+//@ func ValueDesc.Clone
+//@   property C04 C07
+//@   ensures result.Version == v.Version && result.CodecID == v.CodecID && result.Deleted == v.Deleted && (v.value == nil ==> result.value == nil)
+//@   pure
+//@
+//@ # readers never see tombstones: get strips them from a clone of the stored value
+//@ func KV.get
+//@   property C04 C07
+//@   ghost var stripped bool = false
+//@   at after@memberlist.Mergeable.RemoveTombstones: stripped := true
+//@   ensures  err == nil && version == get(m.store, key).Version
+//@   ensures  hidden: out != nil ==> stripped
+//@   modifies nothing
